@@ -1,5 +1,5 @@
 import QbeeModel.Lemmas.ExprSem
-import QbeeModel.Model.Src
+import QbeeModel.Lemmas.Src
 /-
   C01  Compiled programs do what their QBASIC source says.  Property theorems only.
 
@@ -187,59 +187,133 @@ end Qbee.ExprSem
 namespace Qbee.Src
 
 /-- EXIT DO ends exactly the DO loop whose body raised it: the loop returns normally, with the state at the EXIT -/
-theorem exit_do_leaves_this_loop (fuel : Nat) (env : Env) (out : List Int) (post : Expr) (qk : Nat) (body : List Stmt) (res : Res)
-    (hb : execList fuel env out body = some res) (hs : res.sig = .exitDo) :
-    loopDo (fuel + 1) env out 0 (.lit 0) qk post body = some ⟨res.env, res.out, .normal⟩ := by
+theorem exit_do_leaves_this_loop (procs : List Proc) (fuel : Nat) (env : Env) (out : List Int) (post : Expr) (qk : Nat) (body : List Stmt) (res : Res)
+    (hb : execList procs fuel env out body = some res) (hs : res.sig = .exitDo) :
+    loopDo procs (fuel + 1) env out 0 (.lit 0) qk post body = some ⟨res.env, res.out, .normal⟩ := by
   simp [loopDo, hb, hs]
 
 /-- ... and an enclosing FOR loop does not swallow it: EXIT DO inside a FOR inside a DO leaves the DO -/
-theorem for_passes_exit_do (fuel : Nat) (env : Env) (out : List Int) (v : Nat) (lim st : Int) (body : List Stmt) (res : Res)
+theorem for_passes_exit_do (procs : List Proc) (fuel : Nat) (env : Env) (out : List Int) (v : Nat) (lim st : Int) (body : List Stmt) (res : Res)
     (hin : ((decide (st ≥ 0) && decide (getVar env v > lim)) || (decide (st < 0) && decide (getVar env v < lim))) = false)
-    (hb : execList fuel env out body = some res) (hs : res.sig = .exitDo) :
-    loopFor (fuel + 1) env out v lim st body = some res := by
+    (hb : execList procs fuel env out body = some res) (hs : res.sig = .exitDo) :
+    loopFor procs (fuel + 1) env out v lim st body = some res := by
   simp [loopFor, hin, hb, hs]
 
 /-- EXIT FOR ends exactly the FOR loop whose body raised it; the loop variable keeps its value -/
-theorem exit_for_leaves_this_loop (fuel : Nat) (env : Env) (out : List Int) (v : Nat) (lim st : Int) (body : List Stmt) (res : Res)
+theorem exit_for_leaves_this_loop (procs : List Proc) (fuel : Nat) (env : Env) (out : List Int) (v : Nat) (lim st : Int) (body : List Stmt) (res : Res)
     (hin : ((decide (st ≥ 0) && decide (getVar env v > lim)) || (decide (st < 0) && decide (getVar env v < lim))) = false)
-    (hb : execList fuel env out body = some res) (hs : res.sig = .exitFor) :
-    loopFor (fuel + 1) env out v lim st body = some ⟨res.env, res.out, .normal⟩ := by
+    (hb : execList procs fuel env out body = some res) (hs : res.sig = .exitFor) :
+    loopFor procs (fuel + 1) env out v lim st body = some ⟨res.env, res.out, .normal⟩ := by
   simp [loopFor, hin, hb, hs]
 
 /-- a DO loop passes EXIT FOR on to the FOR loop around it -/
-theorem do_passes_exit_for (fuel : Nat) (env : Env) (out : List Int) (post : Expr) (qk : Nat) (body : List Stmt) (res : Res)
-    (hb : execList fuel env out body = some res) (hs : res.sig = .exitFor) :
-    loopDo (fuel + 1) env out 0 (.lit 0) qk post body = some res := by
+theorem do_passes_exit_for (procs : List Proc) (fuel : Nat) (env : Env) (out : List Int) (post : Expr) (qk : Nat) (body : List Stmt) (res : Res)
+    (hb : execList procs fuel env out body = some res) (hs : res.sig = .exitFor) :
+    loopDo procs (fuel + 1) env out 0 (.lit 0) qk post body = some res := by
   simp [loopDo, hb, hs]
 
 /-- statements after an EXIT, END or failing statement in the same list are not executed -/
-theorem execList_stops (fuel : Nat) (env : Env) (out : List Int) (s : Stmt) (rest : List Stmt) (res : Res)
-    (h : exec fuel env out s = some res) (hs : res.sig ≠ .normal) :
-    execList (fuel + 1) env out (s :: rest) = some res := by
+theorem execList_stops (procs : List Proc) (fuel : Nat) (env : Env) (out : List Int) (s : Stmt) (rest : List Stmt) (res : Res)
+    (h : exec procs fuel env out s = some res) (hs : res.sig ≠ .normal) :
+    execList procs (fuel + 1) env out (s :: rest) = some res := by
   simp [execList, h, hs]
 
 /-- a FOR loop whose start is beyond its limit does not execute its body (and leaves the variable at the start value) -/
-theorem for_empty_range (fuel : Nat) (env : Env) (out : List Int) (v : Nat) (lim st : Int) (body : List Stmt)
+theorem for_empty_range (procs : List Proc) (fuel : Nat) (env : Env) (out : List Int) (v : Nat) (lim st : Int) (body : List Stmt)
     (h : (st ≥ 0 ∧ getVar env v > lim) ∨ (st < 0 ∧ getVar env v < lim)) :
-    loopFor (fuel + 1) env out v lim st body = some ⟨env, out, .normal⟩ := by
+    loopFor procs (fuel + 1) env out v lim st body = some ⟨env, out, .normal⟩ := by
   rcases h with ⟨h1, h2⟩ | ⟨h1, h2⟩ <;> simp [loopFor, h1, h2]
 
 /-- WHILE with a false condition skips the body; UNTIL with a non-zero condition (any non-zero value, not only -1) ends a
     DO UNTIL loop before its first iteration -/
-theorem while_false_skips (fuel : Nat) (env : Env) (out : List Int) (c : Expr) (body : List Stmt) (h : eval env c = .ok 0) :
-    loopWhile (fuel + 1) env out c body = some ⟨env, out, .normal⟩ := by
+theorem while_false_skips (procs : List Proc) (fuel : Nat) (env : Env) (out : List Int) (c : Expr) (body : List Stmt) (h : eval env c = .ok 0) :
+    loopWhile procs (fuel + 1) env out c body = some ⟨env, out, .normal⟩ := by
   simp [loopWhile, h]
 
-theorem do_until_nonzero_skips (fuel : Nat) (env : Env) (out : List Int) (pre post : Expr) (qk : Nat) (body : List Stmt) (x : Int)
+theorem do_until_nonzero_skips (procs : List Proc) (fuel : Nat) (env : Env) (out : List Int) (pre post : Expr) (qk : Nat) (body : List Stmt) (x : Int)
     (h : eval env pre = .ok x) (hx : x ≠ 0) :
-    loopDo (fuel + 1) env out 2 pre qk post body = some ⟨env, out, .normal⟩ := by
+    loopDo procs (fuel + 1) env out 2 pre qk post body = some ⟨env, out, .normal⟩ := by
   simp [loopDo, h, condHolds, hx, Except.map]
 
 /-- non-vacuity: a body `PRINT 5 : EXIT DO : PRINT 6` raises EXIT DO after printing 5, so the premises of
     `exit_do_leaves_this_loop` are met and the loop ends with output [5] -/
-example : execList 3 [0] [] [.print (.lit 5), .exitDo, .print (.lit 6)] = some ⟨[0], [5], .exitDo⟩ := by
+example : execList [] 3 [0] [] [.print (.lit 5), .exitDo, .print (.lit 6)] = some ⟨[0], [5], .exitDo⟩ := by
   simp [execList, exec, eval]
-example : loopDo 4 [0] [] 0 (.lit 0) 0 (.lit 0) [.print (.lit 5), .exitDo, .print (.lit 6)] = some ⟨[0], [5], .normal⟩ :=
-  exit_do_leaves_this_loop 3 [0] [] (.lit 0) 0 _ ⟨[0], [5], .exitDo⟩ (by simp [execList, exec, eval]) rfl
+example : loopDo [] 4 [0] [] 0 (.lit 0) 0 (.lit 0) [.print (.lit 5), .exitDo, .print (.lit 6)] = some ⟨[0], [5], .normal⟩ :=
+  exit_do_leaves_this_loop [] 3 [0] [] (.lit 0) 0 _ ⟨[0], [5], .exitDo⟩ (by simp [execList, exec, eval]) rfl
+
+
+/-! ### procedures -/
+
+/-- what a CALL does, given what its body did -/
+theorem call_unfold (procs : List Proc) (fuel : Nat) (env : Env) (out : List Int) (p : Nat) (args : List Arg) (pr : Proc)
+    (vals : List Int) (res : Res) (hp : procs[p]? = some pr) (ha : args.length = pr.nparams) (hv : evalArgs env args = .ok vals)
+    (hb : execList procs fuel (vals ++ List.replicate pr.nlocals 0) out pr.body = some res) :
+    exec procs fuel env out (.call p args) =
+      some ⟨copyOut env args res.env 0, res.out, if res.sig = .exitSub then .normal else res.sig⟩ := by
+  simp [exec, hp, ha, hv, hb]
+
+/-- every activation starts with its locals reading 0 and its parameters holding the argument values: the frame the body
+    runs in does not depend on earlier activations or on the caller's other variables -/
+theorem call_result_env (procs : List Proc) (fuel : Nat) (env : Env) (out : List Int) (p : Nat) (args : List Arg) (res : Res)
+    (h : exec procs fuel env out (.call p args) = some res) :
+    res.env = env ∨ ∃ cenv, res.env = copyOut env args cenv 0 := by
+  simp only [exec] at h
+  split at h
+  · cases h; exact Or.inl rfl
+  · split at h
+    · cases h; exact Or.inl rfl
+    · split at h
+      · cases h; exact Or.inl rfl
+      · split at h
+        · cases h
+        · cases h; exact Or.inr ⟨_, rfl⟩
+
+/-- an argument that is not a plain variable is passed by value: a call whose arguments are all expressions leaves every
+    variable of the caller as it was, whatever the procedure does to its parameters -/
+theorem call_byval_preserves_caller (procs : List Proc) (fuel : Nat) (env : Env) (out : List Int) (p : Nat) (args : List Arg)
+    (res : Res) (hv : refsOf args = []) (h : exec procs fuel env out (.call p args) = some res) : res.env = env := by
+  rcases call_result_env procs fuel env out p args res h with h1 | ⟨cenv, h1⟩
+  · exact h1
+  · rw [h1]; exact copyOut_no_refs env args cenv 0 hv
+
+/-- a call changes only the variables it passes by reference -/
+theorem call_writes_only_refs (procs : List Proc) (fuel : Nat) (env : Env) (out : List Int) (p : Nat) (args : List Arg)
+    (res : Res) (v : Nat) (hv : v ∉ refsOf args) (h : exec procs fuel env out (.call p args) = some res) :
+    getVar res.env v = getVar env v := by
+  rcases call_result_env procs fuel env out p args res h with h1 | ⟨cenv, h1⟩
+  · rw [h1]
+  · rw [h1]; exact copyOut_other env args cenv 0 v hv
+
+/-- a variable passed by reference comes back with the value the procedure left in the corresponding parameter
+    (no variable passed twice) -/
+theorem call_ref_gets_callee_value (env cenv : Env) (args : List Arg) (k v : Nat) (hk : args[k]? = some (.ref v))
+    (hna : NoAlias args) (hv : v < env.length) : getVar (copyOut env args cenv 0) v = getVar cenv k := by
+  simpa using copyOut_ref env cenv args 0 k v hk hna hv
+
+/-- EXIT SUB returns to the statement after the CALL; END inside a procedure ends the program; an error stays an error -/
+theorem exit_sub_returns (procs : List Proc) (fuel : Nat) (env : Env) (out : List Int) (p : Nat) (args : List Arg) (pr : Proc)
+    (vals : List Int) (res : Res) (hp : procs[p]? = some pr) (ha : args.length = pr.nparams) (hv : evalArgs env args = .ok vals)
+    (hb : execList procs fuel (vals ++ List.replicate pr.nlocals 0) out pr.body = some res) (hs : res.sig = .exitSub) :
+    exec procs fuel env out (.call p args) = some ⟨copyOut env args res.env 0, res.out, .normal⟩ := by
+  rw [call_unfold procs fuel env out p args pr vals res hp ha hv hb]; simp [hs]
+
+theorem end_in_sub_ends_program (procs : List Proc) (fuel : Nat) (env : Env) (out : List Int) (p : Nat) (args : List Arg)
+    (pr : Proc) (vals : List Int) (res : Res) (hp : procs[p]? = some pr) (ha : args.length = pr.nparams)
+    (hv : evalArgs env args = .ok vals)
+    (hb : execList procs fuel (vals ++ List.replicate pr.nlocals 0) out pr.body = some res) (hs : res.sig = .ended) :
+    exec procs fuel env out (.call p args) = some ⟨copyOut env args res.env 0, res.out, .ended⟩ := by
+  rw [call_unfold procs fuel env out p args pr vals res hp ha hv hb]; simp [hs]
+
+/-- non-vacuity: SUB p0 (a, b): a = 7 : b = 9 : EXIT SUB : PRINT 7 ; CALL p0(v0, (v1)) with v0 = 4, v1 = 5:
+    v0 comes back as 7, v1 (passed by value) keeps 5, nothing is printed -/
+example : exec [⟨2, 0, [.assign 0 (.lit 7), .assign 1 (.lit 9), .exitSub, .print (.lit 7)]⟩] 5 [4, 5] []
+    (.call 0 [.ref 0, .val (.var 1)]) = some ⟨[7, 5], [], .normal⟩ := by
+  have hb : execList [⟨2, 0, [.assign 0 (.lit 7), .assign 1 (.lit 9), .exitSub, .print (.lit 7)]⟩] 5
+      ([4, 5] ++ List.replicate 0 0) [] [.assign 0 (.lit 7), .assign 1 (.lit 9), .exitSub, .print (.lit 7)]
+      = some ⟨[7, 9], [], .exitSub⟩ := by
+    simp [execList, exec, eval, setVar]
+  rw [exit_sub_returns _ 5 [4, 5] [] 0 _ ⟨2, 0, _⟩ [4, 5] _ rfl rfl rfl hb rfl]
+  rfl
 
 end Qbee.Src
